@@ -61,17 +61,56 @@ def in_unit_range(arg):
                         if hi is not None and hi <= 1:
                             return True, c, "max(min(x, %s), %s)" % (hi, lo)
     if isinstance(arg, tuple) and arg and arg[0] == "g":
-        # saturating branches: g(x > 1, 1, g(x < -1, -1, x)) and variants
-        c, a, b = arg[1], arg[2], arg[3]
-        va = const_value(a)
-        if va is not None and -1 <= va <= 1 and isinstance(c, tuple) and c[0] == "cmp":
-            ok, inner, why = in_unit_range(b) if not _is_plain(b) else _one_sided(c, va, b)
-            if ok:
-                return True, inner, "saturating branches"
+        # conditional saturation in any spelling (x < -1 ? -1 : (1 < x ? 1 : x), if/else chains, early returns ...):
+        # case analysis over the comparisons with constants that guard each leaf
+        ok, inner = _cases_in_range(arg, [])
+        if ok:
+            return True, inner, "saturating branches (every leaf is a constant in [-1, 1] or is guarded on both sides)"
     v = const_value(arg)
     if v is not None:
         return (-1 <= v <= 1), arg, "constant"
     return False, arg, "the argument is %s: its real range is [-1, 1] by Cauchy-Schwarz, but rounding can leave it just outside, where acos is NaN" % _shape(arg)
+
+
+def _strip_casts(t):
+    while isinstance(t, tuple) and t and t[0] == "cast":
+        t = t[2]
+    return t
+
+
+def _cases_in_range(t, facts_):
+    """t: tree of conditionals. facts_: list of (term, op, constant) known true on this path (negated comparisons are
+    stored with the complementary operator, which is what they mean for non-NaN values; a NaN passes through every
+    spelling of a clamp, std::clamp included).  Returns (ok, the clamped inner term or None)."""
+    if isinstance(t, tuple) and t and t[0] == "g":
+        c = t[1]
+        add_t, add_f = [], []
+        if isinstance(c, tuple) and c[0] == "cmp":
+            op, x, y = c[1], c[2], c[3]
+            kx, ky = const_value(x), const_value(y)
+            if ky is not None and kx is None:
+                add_t.append((_strip_casts(x), op, ky))
+                add_f.append((_strip_casts(x), NEGATE[op], ky))
+            elif kx is not None and ky is None:
+                add_t.append((_strip_casts(y), FLIP[op], kx))
+                add_f.append((_strip_casts(y), NEGATE[FLIP[op]], kx))
+        ok1, in1 = _cases_in_range(t[2], facts_ + add_t)
+        ok2, in2 = _cases_in_range(t[3], facts_ + add_f)
+        return (ok1 and ok2), (in1 if in1 is not None else in2)
+    v = const_value(t)
+    if v is not None:
+        return (-1 <= v <= 1), None
+    x = _strip_casts(t)
+    lower = any(term == x and ((op in (">=", ">") and k >= -1)) for term, op, k in facts_)
+    upper = any(term == x and ((op in ("<=", "<") and k <= 1)) for term, op, k in facts_)
+    if lower and upper:
+        return True, t
+    ok, inner, _why = in_unit_range(t) if isinstance(t, tuple) and t and t[0] == "fn" else (False, None, "")
+    return ok, inner
+
+
+NEGATE = {"<": ">=", ">=": "<", ">": "<=", "<=": ">", "==": "!=", "!=": "=="}
+FLIP = {"<": ">", ">": "<", "<=": ">=", ">=": "<=", "==": "==", "!=": "!="}
 
 
 def _is_plain(t):
